@@ -358,6 +358,49 @@ def r09_6(ctx, rep):
     rep.ob(R, site, "no connection set is shrunk", not bad, "; ".join(bad[:3]) + " — members disappear from a set that other keys still point to: they are in no flow sum and get no zero-flow default either")
 
 
+@SPEC.rule(
+    "R09.7",
+    "nothing is left out: no loop of expand_connectors is left early with `break` (the connector variables after a parameter, the clauses "
+    "after a special one would stay unconnected), and every iteration over what is left in the table of unconnected flow variables appends "
+    "that variable's `= 0` equation — `it already has a defining equation` is not `it is connected`",
+)
+def r09_7(ctx, rep):
+    from ..cfg import CFG, iteration_skips
+    R = "R09.7"
+    fn = ctx.func(TREE, "expand_connectors", R)
+    site = TREE + ":expand_connectors"
+    loops = [lp for lp in walk_local(fn) if isinstance(lp, ast.For)]
+    if len(loops) < 4:
+        raise MechanismMissing(R, "fewer than 4 loops found in expand_connectors")
+    for lp in loops:
+        early = []
+
+        def own(node, top):
+            for ch in ast.iter_child_nodes(node):
+                if isinstance(ch, (ast.For, ast.While, ast.FunctionDef, ast.Lambda)) and ch is not top:
+                    continue
+                if isinstance(ch, ast.Break):
+                    early.append(ch)
+                own(ch, top)
+
+        own(lp, lp)
+        rep.ob(R, site, "loop `for %s in %s` runs to the end" % (norm(lp.target)[:30], norm(lp.iter)[:40]), not early,
+               "the loop is left with `break` (line %s): the elements after that point are not connected / not given an equation" % (early[0].lineno if early else "?"))
+    # the table of unconnected flows: popped with a default while connecting, iterated at the end
+    popped = {norm(c.func.value) for c in calls(fn) if isinstance(c.func, ast.Attribute) and c.func.attr == "pop" and len(c.args) == 2}
+    finals = [lp for lp in loops if isinstance(lp.iter, ast.Call) and isinstance(lp.iter.func, ast.Attribute) and lp.iter.func.attr in ("values", "items", "keys")
+              and norm(lp.iter.func.value) in popped]
+    if not finals:
+        raise MechanismMissing(R, "the loop over the table of unconnected flow variables was not found")
+    cfg = CFG(fn, R)
+    for lp in finals:
+        w = iteration_skips(cfg, lp, lambda x: x.kind == "stmt" and any(isinstance(c.func, ast.Attribute) and c.func.attr == "append" and norm(c.func.value).endswith(".equations")
+                                                                         for c in calls(x.ast)))
+        rep.ob(R, site, "every unconnected flow variable gets its `= 0`", w is None,
+               "an iteration over the unconnected flow variables can end without appending an equation: that flow is neither in a connection "
+               "sum nor zero", path=cfg.describe(w) if w else "")
+
+
 # -- seeded variants ---------------------------------------------------------
 from ._mut import delete_stmt_where, replace_in_func  # noqa: E402
 
